@@ -173,6 +173,16 @@ func runSeqHooked(plan *Plan, tape *simrt.Tape, setup func(x *seqExec), post fun
 				x.curOp = op.ID
 				if op.Kind == "restart" {
 					restartOp = &op
+					if op.Kill {
+						// unclean stop that loses nothing: everything is flushed, then the process
+						// just ends (no hint / tree dump of the final state; they are replayed or
+						// rebuilt at the next open)
+						g.W.WaitIdle()
+						g.H.VerifFlush(true)
+						g.W.WaitIdle()
+						x.out.fault("kill-after-flush")
+						return
+					}
 					closing = true
 					g.H.Close()
 					return
